@@ -7,7 +7,9 @@ import (
 	"os"
 	"path/filepath"
 	"runtime"
+	"slices"
 	"strings"
+	"syscall"
 
 	"github.com/go-git/go-billy/v6"
 
@@ -288,13 +290,27 @@ func (sfs *worktreeFilesystem) validWritePath(paths ...string) error {
 // in unlink_entry (entry.c).
 func (sfs *worktreeFilesystem) validNoLeadingSymlink(paths ...string) error {
 	for _, p := range paths {
+		var dirs []string
 		for dir := filepath.Dir(p); dir != "." && dir != "" && dir != string(filepath.Separator); dir = filepath.Dir(dir) {
+			dirs = append(dirs, dir)
+		}
+		// Shallowest first: every component above the one being inspected
+		// is then known not to be a symlink, so the Lstat itself never
+		// resolves through a link. Walking up from the deepest ancestor
+		// would stat "link/sub" (that is, <link target>/sub) before finding
+		// out that "link" is a symlink.
+		for _, dir := range slices.Backward(dirs) {
 			fi, err := sfs.Filesystem.Lstat(dir)
 			if err != nil {
-				// A missing ancestor is materialised as a real directory.
-				// Any other Lstat error is left for the operation itself
-				// to surface.
-				continue
+				// A missing ancestor is materialised as a real directory,
+				// and nothing can exist below it (likewise below a
+				// non-directory). Any other error means this component
+				// could not be inspected, so whatever lies below it cannot
+				// be reached without possibly following a link: fail closed.
+				if errors.Is(err, fs.ErrNotExist) || errors.Is(err, syscall.ENOTDIR) {
+					break
+				}
+				return fmt.Errorf("invalid path %q: leading component %q: %w", p, dir, err)
 			}
 			if fi.Mode()&os.ModeSymlink != 0 {
 				return fmt.Errorf("invalid path %q: leading component %q is a symlink", p, dir)
